@@ -64,9 +64,13 @@ func genC07Subject(r *Rand, i int) c07Subject {
 	}
 	n := 1 + r.Intn(6)
 	t := baseTime + int64(r.Intn(100))
+	anyTimes := i%3 == 2 // "random messages": times in any order (the index keeps a running maximum)
 	for j := 0; j < n; j++ {
 		m := ref.Msg{Offset: s.base + int64(j), T: t}
 		t += int64(r.Intn(3))
+		if anyTimes {
+			t = baseTime + int64(r.Intn(100))
+		}
 		if kl := r.Intn(41); kl > 0 && !r.Chance(0.15) {
 			m.Key = r.Bytes(kl)
 		}
